@@ -9,6 +9,7 @@ import (
 	"fmt"
 	"os"
 	"os/exec"
+	"path/filepath"
 	"runtime"
 	"runtime/debug"
 	"sort"
@@ -50,6 +51,9 @@ type Scenario struct {
 	// NoCache disables the state cache (needed when an oracle observes the order of events that do not
 	// conflict in the happens-before sense, e.g. a monitor evaluated after every step).
 	NoCache bool
+	// OncePerProcess: the oracle reports a given violation once per process (race detector), so a
+	// re-execution of the same schedule is compared on its trace and outcome only.
+	OncePerProcess bool
 }
 
 // Job is a unit of work for a worker process.
@@ -180,7 +184,7 @@ func (e *explorer) rec(prefix, prefixN []int, used int, expandOnly bool) {
 		for i := 0; i < n; i++ {
 			x2, r2 := e.run(r.Choices, r.NCands, false)
 			e.res.Replays++
-			if r2.TraceHash != r.TraceHash || x2.Obs != x.Obs || len(x2.Viols) != len(x.Viols) || r2.Diverged != "" {
+			if r2.TraceHash != r.TraceHash || x2.Obs != x.Obs || (len(x2.Viols) != len(x.Viols) && !e.sc.OncePerProcess) || r2.Diverged != "" {
 				e.res.Err = fmt.Sprintf("nondeterminism not captured: scenario=%s choices=%v obs %q vs %q, viols %d vs %d, hash %x vs %x %s",
 					e.sc.Name, compact(r.Choices), x.Obs, x2.Obs, len(x.Viols), len(x2.Viols), r.TraceHash, r2.TraceHash, r2.Diverged)
 				return
@@ -337,6 +341,10 @@ func startWorker() (*workerProc, error) {
 	cmd.Stderr = os.Stderr
 	cmd.Stdout = nil
 	cmd.Env = append(os.Environ(), "GOMAXPROCS=2")
+	if vrt.RaceBuild {
+		os.MkdirAll(filepath.Join(verifRoot(), ".build", "race"), 0o755)
+		cmd.Env = append(os.Environ(), "GOMAXPROCS=1", "GORACE=halt_on_error=0 log_path="+filepath.Join(verifRoot(), ".build", "race", "log"))
+	}
 	stdin, err := cmd.StdinPipe()
 	if err != nil {
 		return nil, err
